@@ -11,10 +11,16 @@ by the statement's rule) and the returned value / exception.
 """
 import base64
 import glob
+import hashlib
 import os
+import shutil
+import socket
 import struct
+import tempfile
+import threading
+import time
 
-from common import coq
+from common import coq, with_watchdog
 
 PID = "C45"
 GENS = ["c39", "c45"]     # C45 builds on C39's codec lemmas, whose constants come from gen/c39.py
@@ -160,6 +166,192 @@ def drive(blob, data, alg, stream, rng):
     return drive_session([blob], [(0, data, alg, stream)], rng)[0][:4]
 
 
+class FakeAgentServer:
+    """A real ssh-agent protocol endpoint on a unix socket (SSH_AUTH_SOCK): answers REQUEST_IDENTITIES and
+    SIGN_REQUEST; its signatures are recognisable (tag, flags, hash of blob+data); logs every request with the
+    connection it arrived on; the n-th sign request can be answered late."""
+
+    def __init__(self, path, identities, tag, delays=None):
+        self.path, self.identities, self.tag, self.delays = path, identities, tag, dict(delays or {})
+        self.signs = []          # (connection number, blob, data, flags)
+        self.nconn = 0
+        self.sock = socket.socket(socket.AF_UNIX, socket.SOCK_STREAM)
+        self.sock.bind(path)
+        self.sock.listen(8)
+        self.alive = True
+        threading.Thread(target=self._accept, daemon=True).start()
+
+    def signature(self, blob, data, flags):
+        return self.tag + b"|%d|" % flags + hashlib.sha256(blob + b"/" + data).digest()
+
+    def _accept(self):
+        while self.alive:
+            try:
+                c, _ = self.sock.accept()
+            except OSError:
+                return
+            self.nconn += 1
+            threading.Thread(target=self._serve, args=(c, self.nconn), daemon=True).start()
+
+    @staticmethod
+    def _recvall(c, n):
+        buf = b""
+        while len(buf) < n:
+            x = c.recv(n - len(buf))
+            if not x:
+                return None
+            buf += x
+        return buf
+
+    def _serve(self, c, cid):
+        try:
+            while True:
+                h = self._recvall(c, 4)
+                if h is None:
+                    return
+                body = self._recvall(c, struct.unpack(">I", h)[0])
+                if body is None:
+                    return
+                if body[:1] == b"\x0b":
+                    out = b"\x0c" + struct.pack(">I", len(self.identities))
+                    for blob, comment in self.identities:
+                        out += sstr(blob) + sstr(comment.encode())
+                elif body[:1] == b"\x0d":
+                    blob, p = get_str(body, 1)
+                    data, p = get_str(body, p)
+                    flags = struct.unpack(">I", body[p:p + 4])[0]
+                    n = len(self.signs)
+                    self.signs.append((cid, blob, data, flags))
+                    if n in self.delays:
+                        time.sleep(self.delays[n])
+                    out = b"\x0e" + sstr(self.signature(blob, data, flags))
+                else:
+                    out = b"\x05"
+                c.sendall(struct.pack(">I", len(out)) + out)
+        except OSError:
+            return
+        finally:
+            try:
+                c.close()
+            except OSError:
+                pass
+
+    def close(self):
+        self.alive = False
+        try:
+            self.sock.close()
+        except OSError:
+            pass
+
+
+def socket_agents(ctx, rng, blobs):
+    """END TO END over real unix sockets and the public paramiko.agent.Agent():
+    (1) two agents that list the SAME identities, each key must be signed by the agent that listed it, also
+        after the other Agent object was closed and after a new Agent() was opened;
+    (2) an agent that answers one signature late: every signature returned afterwards must still be the
+        agent's answer to THAT request.  If the connection carries a timeout it is scaled down to 0.1 s so that
+        'slower than the timeout' costs 0.4 s instead of the configured seconds."""
+    from paramiko.agent import Agent
+    tmp = tempfile.mkdtemp(prefix="verif-c45-")
+    saved = os.environ.get("SSH_AUTH_SOCK")
+    servers, agents = [], []
+    try:
+        idents = [(b, "key-%d" % i) for i, b in enumerate(blobs)]
+        sa = FakeAgentServer(os.path.join(tmp, "a.sock"), idents, b"A")
+        sb = FakeAgentServer(os.path.join(tmp, "b.sock"), idents, b"B")
+        servers += [sa, sb]
+
+        def open_agent(server):
+            os.environ["SSH_AUTH_SOCK"] = server.path
+            st, ag = with_watchdog(Agent, 10.0)
+            if st != "ok":
+                raise RuntimeError("Agent() %s: %r" % (st, ag))
+            agents.append(ag)
+            return ag
+
+        steps = []
+
+        def sign(ag, server, other, ki, alg, what):
+            data = bytes(rng.randrange(256) for _ in range(rng.choice([1, 16, 40])))
+            keys = ag.get_keys()
+            case = {"socket-agents": what, "steps": list(steps), "key index": ki, "algorithm": alg, "data": data}
+            steps.append(what)
+            if len(keys) != len(idents):
+                ctx.fail("agent-identities", "Agent() does not list the agent's identities", case=case,
+                         expected=len(idents), observed=len(keys))
+                return
+            before = (len(server.signs), len(other.signs))
+            st, got = with_watchdog(lambda: keys[ki].sign_ssh_data(data, alg), 10.0)
+            flags = REF_FLAGS.get(alg, 0)
+            want = server.signature(expected_blob(idents[ki][0]), data, flags)
+            ctx.count(("socket", what, ki, alg, data), kind="socket-agents")
+            if st != "ok" or bytes(got) != want:
+                ctx.fail("sign-wrong-agent", "a key listed by one agent connection was not signed by that agent "
+                         "(two Agent objects list the same identity): " + what, case=case,
+                         expected=want, observed=repr(got)[:200] if st != "ok" else bytes(got))
+            elif (len(server.signs), len(other.signs)) != (before[0] + 1, before[1]):
+                ctx.fail("sign-wrong-agent", "the sign request did not go (only) to the agent that listed the key: " + what,
+                         case=case, expected=[before[0] + 1, before[1]], observed=[len(server.signs), len(other.signs)])
+
+        algs = list(REF_FLAGS) + [None, "ssh-ed25519"]
+        n = len(idents)
+        ag_a = open_agent(sa)
+        ag_b = open_agent(sb)
+        sign(ag_b, sb, sa, rng.randrange(n), rng.choice(algs), "second Agent's key, both open")
+        sign(ag_a, sa, sb, rng.randrange(n), rng.choice(algs), "first Agent's key again, both open")
+        sign(ag_b, sb, sa, rng.randrange(n), rng.choice(algs), "second Agent's key again")
+        ag_a.close()
+        sign(ag_b, sb, sa, rng.randrange(n), rng.choice(algs), "second Agent's key after the first Agent was closed")
+        ag_a2 = open_agent(sa)
+        sign(ag_a2, sa, sb, rng.randrange(n), rng.choice(algs), "a new Agent() on the first agent after close")
+        sign(ag_b, sb, sa, rng.randrange(n), rng.choice(algs), "second Agent's key after the first was reopened")
+
+        # (2) one late answer
+        sc = FakeAgentServer(os.path.join(tmp, "c.sock"), idents, b"C", delays={0: 0.4})
+        servers.append(sc)
+        ag_c = open_agent(sc)
+        conn = ag_c._conn
+        tmo = conn.gettimeout() if hasattr(conn, "gettimeout") else None
+        if tmo is not None:
+            conn.settimeout(min(tmo, 0.1))
+        case = {"socket-agents": "late answer", "connection timeout configured by paramiko": tmo,
+                "note": "the agent answers the first sign request after 0.4 s"
+                        + ("" if tmo is None else "; the configured timeout was scaled down to 0.1 s")}
+        keys = ag_c.get_keys()
+        d1, d2, d3 = b"first-request", b"second-request", b"third-request"
+        st1, got1 = with_watchdog(lambda: keys[0].sign_ssh_data(d1, "rsa-sha2-256"), 10.0)
+        if st1 != "ok":
+            time.sleep(0.6)                    # the abandoned request's answer arrives meanwhile
+        results = [(st1, got1)]
+        for d, alg in ((d2, "rsa-sha2-512"), (d3, None)):
+            results.append(with_watchdog(lambda d=d, alg=alg: keys[n - 1].sign_ssh_data(d, alg), 10.0))
+        wants = [sc.signature(expected_blob(idents[0][0]), d1, 2),
+                 sc.signature(expected_blob(idents[n - 1][0]), d2, 4),
+                 sc.signature(expected_blob(idents[n - 1][0]), d3, 0)]
+        ctx.count(("socket-late", tmo), kind="socket-agents-late-answer")
+        for i, ((st, got), want) in enumerate(zip(results, wants)):
+            if st == "ok" and bytes(got) != want:
+                other = [j for j, w in enumerate(wants) if bytes(got) == w]
+                ctx.fail("late-reply-off-by-one", "sign call %d returned %s instead of the agent's signature for this "
+                         "request" % (i + 1, "the answer to request %d" % (other[0] + 1) if other else "other bytes"),
+                         case=case, expected=want, observed=bytes(got))
+            elif st == "hang":
+                ctx.fail("late-reply-hang", "sign call %d did not return within 10 s" % (i + 1), case=case)
+    finally:
+        for ag in agents:
+            try:
+                ag.close()
+            except Exception:      # noqa
+                pass
+        for sv in servers:
+            sv.close()
+        if saved is None:
+            os.environ.pop("SSH_AUTH_SOCK", None)
+        else:
+            os.environ["SSH_AUTH_SOCK"] = saved
+        shutil.rmtree(tmp, ignore_errors=True)
+
+
 def oracle_request(ctx, case, sent, blob, data, alg):
     want_flags = 0 if alg in (None, OMIT) else REF_FLAGS.get(alg, 0)
     want = b"\x0d" + sstr(expected_blob(blob)) + sstr(data) + struct.pack(">I", want_flags)
@@ -200,7 +392,9 @@ def run(ctx):
                 "algorithm x signature format names incl. an agent ignoring the flags, malformed blobs), truncated frames, EOF, short bodies, "
                 "over-long declared lengths, trailing bytes; recv() chunked randomly; plus sessions of 2..5 sign "
                 "calls on the same AgentKey objects (1-2 keys) over one agent connection with different data / "
-                "algorithms / reply types, every call checked. Non-trivial = distinct case")
+                "algorithms / reply types, every call checked; end to end over real unix sockets through the public "
+                "Agent(): two agents listing the same identities (sign after the other was closed / reopened) and an "
+                "agent that answers one request late. Non-trivial = distinct case")
     ctx.trusted += ["model coq/Model/C45.v is hand-written; flag map and message numbers are generated from the "
                     "live module (gen/c45.py, fail-closed)",
                     "inner_key.asbytes() is an input of the model (checked by the harness oracle against an "
@@ -356,6 +550,16 @@ def run(ctx):
             cases.append(((blob, inner, data, None if alg in (None, OMIT) else alg, stream), canon, case))
             ctx.count((label, data, repr(alg), stream, i), kind="session-first" if i == 0 else "session-later")
 
+    # 5. end to end: real unix-socket agents and the public Agent() (two agents listing the same identities;
+    #    an agent that answers late)
+    for _ in range(2 * scale):
+        chosen = rng.sample(small, 2) + ([keys[0]] if rng.random() < 0.5 else [])
+        try:
+            socket_agents(ctx, rng, [b for _l, b in chosen])
+        except Exception as e:      # noqa
+            ctx.fail("socket-agents-error", "the real-socket agent scenario raised %s: %s" % (type(e).__name__, e),
+                     case={"socket-agents": "setup"})
+
     bad = ctx.model_mismatches(
         "run_sign", "(list Z * option (list Z) * list Z * option (list Z) * list Z)",
         [("(%s, %s, %s, %s, %s)" % (coq(list(b)), coq_opt(i), coq(list(d)), coq_opt(None if a is None else a.encode("utf-8")),
@@ -382,6 +586,13 @@ def run(ctx):
 
 def replay(ctx, rep):
     case = rep["case"]
+    if "socket-agents" in case:
+        keys = key_blobs(ctx)
+        small = [kb for kb in keys if len(kb[1]) < 120]
+        ctx.count(("replay", repr(case)[:200]))
+        ctx.count(("replay2", repr(case)[:200]))
+        socket_agents(ctx, ctx.rng, [b for _l, b in small[:2]] + [keys[0][1]])
+        return
 
     def unhex(v):
         return bytes.fromhex(v["hex"]) if isinstance(v, dict) else v
